@@ -2,6 +2,7 @@
 (src/builtin_hashes.c, SPIFHASH_JENKINS_MIX in include/libast.h)."""
 import re
 import vlib
+import bigsize
 
 
 def hx(bs):
@@ -47,6 +48,9 @@ class C18(vlib.PropertyCheck):
                    'a 32-bit word as the little-endian composition of four bytes)',
                    'spifhash_jenkins32 is called on 4-byte aligned word arrays (its documented domain)',
                    'key length below 2^32 and equal to the number of accessible bytes at the key pointer',
+                   'lengths of 2^31-1 and more are tied on the implementation side only (implementation against the harness\'s C transcription '
+                   'of the reference definitions, itself compared with the extracted reference on every small case); the extracted model is '
+                   'not run there',
                    'gcc branch (__GNUC__) of spifhash_fnv; the other branch is the multiplication the theorem '
                    'fnv_shift_add_is_multiply equates it with']
 
@@ -67,7 +71,10 @@ class C18(vlib.PropertyCheck):
               '8 alignments flush against a PROT_NONE page and in exact-size malloc blocks), extracted model and extracted reference '
               'are compared value for value; implementation /= reference is a failing input, implementation /= model alone is a '
               'broken correspondence.  Decided only by the comparison: that the compiled C code computes what the model computes '
-              '(in particular the host being little-endian and the aligned word loads), and placement independence of the compiled code.'),
+              '(in particular the host being little-endian and the aligned word loads), and placement independence of the compiled code.  '
+              'Length arguments of 2^31-1 up to 2^32-1 (jenkins32: up to 2^32-1 words) are run on the implementation only, over sparse '
+              'mappings ending at a PROT_NONE page, against the harness\'s C transcription of the reference definitions (the same one every '
+              'small case compares with); the extracted model is too slow there, the theorems cover those lengths.'),
         design_ref='DESIGN.md section 7, C18')
 
     def case(self, align, seed, length, key):
@@ -122,6 +129,39 @@ class C18(vlib.PropertyCheck):
                                    n, contents(rng.choice(KINDS), n, rng)))
         return cases
 
+    # ---- length arguments of 2^31-1 .. 2^32-1 (see checks/bigsize.py and the "big" case of harness/c18.c) ----
+    def big_cases(self, tier):
+        """`big <hashes> <len> <seed> <align> <cseed>`; one (hash, length) per line so that they run in parallel.
+        The length parameter is a spif_uint32_t, so 2^32-1 is the largest length there is (2^32+5 would arrive as 5).
+        Around 2^31: the last length a signed 32-bit counter holds, the first it does not, and every tail-switch
+        position of the 12-byte block loop next to it (2^31 = 12*178956970 + 8: 2^31+4 has an empty tail, 2^31+3 a
+        full one; +11/+12/+17 are the lengths at which `length - 12` crosses 2^31)."""
+        B = 1 << 31
+        bytewise = '01345'
+        if tier == 'quick':
+            plan = [(B + 17, bytewise, 0x811c9dc5, 5, 9), (B - 1, '03', 0, 2, 3), (B, '345', 12345, 0, 7)]
+            plan32 = [((B >> 2) + 5, 1, 4, 5)]                          # 2^29+5 words = 2 GiB + 20 bytes
+        else:
+            plan = [(B - 1, bytewise, 0, 1, 3), (B, bytewise, 12345, 0, 7), (B + 3, '01', 1, 7, 4), (B + 4, '01', 0xffffffff, 6, 0),
+                    (B + 11, bytewise, 5, 3, 7), (B + 12, bytewise, 0xdeadbeef, 4, 0), (B + 17, bytewise, 0x811c9dc5, 5, 9),
+                    (3 * (B >> 1) + 7, bytewise, 0x80000000, 2, 11), ((1 << 32) - 13, '01', 7, 0, 2), ((1 << 32) - 1, bytewise, 0, 7, 13)]
+            # the word-wise hash: its length counts words - 2^31 words are 8 GiB of key
+            plan32 = [((B >> 2) + 5, 1, 4, 5), (B - 1, 0, 0, 6), (B, 12345, 4, 0), (B + 1, 0xf721b64d, 0, 8), ((1 << 32) - 1, 3, 4, 10)]
+        cases = []
+        for (n, hashes, seed, align, cseed) in plan:
+            for h in hashes:
+                cases.append('big %s %d %d %d %d' % (h, n, seed, align, cseed))
+        for (n, seed, align, cseed) in plan32:
+            cases.append('big 2 %d %d %d %d' % (n, seed, align, cseed))
+        # longest first: the pool then finishes as early as it can
+        cases.sort(key=lambda c: -(int(c.split()[2]) * (4 if c.split()[1] == '2' else 1)))
+        return cases
+
+    def extra_steps(self, ctx):
+        return bigsize.big_pass(self, ctx, self.big_cases(ctx['tier']), lambda c: 'BIG:ok',
+                                what=('spifhash_* with length arguments 2^31-1 .. 2^32-1 (jenkins32: up to 2^32-1 words = 16 GiB) over sparse '
+                                      'mappings flush against a PROT_NONE page, compared with the C transcription of the reference definitions'))
+
     def split(self, case, out):
         # A: the reference values (model side) / implementation values (harness side), the placement and
         #    C-reference verdicts.  B: the model's values.
@@ -131,7 +171,7 @@ class C18(vlib.PropertyCheck):
         return m.group(1) + ' ' + m.group(3), m.group(2)
 
     def nontrivial(self, case, mout):
-        return mout.startswith('S:')
+        return mout.startswith('S:') or mout.startswith('BIG:')
 
 
 CHECK = C18()
